@@ -20,10 +20,12 @@ from common import cstr, clist, cfloat, copt, cpair, cz, cnat
 
 THEOREMS = ['C12_expand_shorthand', 'C12_interpolates_evenly_spaced',
             'C12_importance_cards_max', 'C12_importance_cards_uneven_refused',
-            'C12_keywords_importance', 'C12_importance_of_cell',
+            'C12_keywords_importance', 'C12_option_tokens_words',
+            'C12_importance_of_cell',
             'C12_importance_missing_refused', 'C12_skipped_iff_zero',
             'C12_converted_iff_nonzero', 'C12_data_card_max_zero',
-            'C12_cell_card_max_zero', 'C12_chain_max_zero',
+            'C12_cell_card_max_zero', 'C12_plain_card_max_zero',
+            'C12_chain_max_zero',
             'C12_conv_keys_not_skipped', 'C12_written_volumes',
             'C12_like_but_imp_refuted',
             'C12_nonu_refuted']
@@ -269,8 +271,9 @@ def gen_deck_once(rng, level0, malformed, like):
                 # MAT= on a LIKE card always comes with RHO= (the base may be void)
                 blocks.append(g.gen_block(rng, 'rho'))
             if new_mat:
-                blk = g.gen_block(rng, 'mat')
-                mats.add(int(blk['vals'][0]))
+                blk = g.gen_block(rng, 'mat')       # MAT=0: the cell is void
+                if int(blk['vals'][0]):
+                    mats.add(int(blk['vals'][0]))
                 blocks.append(blk)
         else:
             mat = 0 if rng.random() < 0.5 else rng.choice([1, 2, 3])
